@@ -54,12 +54,18 @@ def run(c):
     c.log("abstract spec Seeder.tla: %d + %d distinct states, invariants hold" % (r1.distinct, n2))
 
     scen = c.path("seeder_scen.ndjson")
-    n_exh = n_rand = 0
+    n_exh = n_rand = n_ponly = 0
     exh = c.pick(4, 5)
     with open(scen, "w") as out:
         part = c.path("seeder_scen_exh.ndjson")
         res = c.tlc_must_pass("gsp", "SeederScen", cfg="MC_SeederScen_%d" % exh, edges_out=part, workers=W, timeout=3000)
         n_exh = res.edges
+        out.write(open(part).read())
+        # one step more for peer p alone (chunks 0..1, limit n2): the shortest scripts that open a session without
+        # chunks, resume it and then open a third one need five steps
+        part = c.path("seeder_scen_p.ndjson")
+        res = c.tlc_must_pass("gsp", "SeederScen", cfg="MC_SeederScen_%dp" % (exh + 1), edges_out=part, workers=W, timeout=3000)
+        n_ponly = res.edges
         out.write(open(part).read())
         # longer scripts: TLC random simulation of the same environment model
         rl = c.pick(7, 8)
@@ -75,9 +81,11 @@ def run(c):
                 seen.add(line)
                 out.write(line)
         n_rand = len(seen)
-    c.log("TLC enumerated %d scripts of %d steps and simulated %d distinct scripts of %d steps" % (n_exh, exh, n_rand, rl))
+    c.log("TLC enumerated %d scripts of %d steps, %d single-peer scripts of %d steps, and simulated %d distinct scripts of %d steps" % (
+        n_exh, exh, n_ponly, exh + 1, n_rand, rl))
     c.guard("scripts_exhaustive", n_exh)
     c.guard("scripts_random", n_rand)
+    c.guard("scripts_single_peer", n_ponly)
 
     trace = c.path("seeder_trace.ndjson")
     stats = json.loads(c.vh(["gsp-seeder", scen, trace, c.pick(10, 20)]).stdout)
@@ -100,10 +108,11 @@ def run(c):
     return c.finish("model_checking", dict(
         states=c.tlc_states, transitions=c.tlc_transitions,
         traces_validated_against_impl=r["scenarios"], trace_lines_validated=r["validated_lines"],
-        scenarios_enumerated_by_tlc=n_exh, scenarios_simulated_by_tlc=n_rand,
+        scenarios_enumerated_by_tlc=n_exh + n_ponly, scenarios_simulated_by_tlc=n_rand,
         exhaustive=True,
         rule="every script of SeederScen.tla with L=%d (peer p: session ids 1..4, fresh id = smallest unused; peer q: session id 1; "
-             "chunks 0..2; unregister; limits n1/n2/s15), plus TLC-simulated scripts of %d steps, each executed on the real seeder "
+             "chunks 0..2; unregister; limits n1/n2/s15), every single-peer script of one step more (chunks 0..1, limit n2), plus "
+             "TLC-simulated scripts of %d steps, each executed on the real seeder "
              "with quiescence after every step; every 10th/20th script also with MaxPendingResponsesSize=5 and a slow SendChunk; "
              "every recorded line validated against Seeder.tla" % (exh, rl),
         harness_stats=stats, samples=[gsp_util.head_lines(trace, 14)],
